@@ -113,7 +113,14 @@ from typing import Optional
 
 from xonsh.built_ins import XSH
 from xonsh.platform import PYTHON_VERSION_INFO
-from xonsh.tools import find_next_break, get_logical_line, source_lines, subproc_toks
+from xonsh.tools import (
+    _ends_with_line_continuation,
+    find_next_break,
+    get_line_continuation,
+    get_logical_line,
+    source_lines,
+    subproc_toks,
+)
 
 STATEMENTS = (
     FunctionDef,
@@ -439,7 +446,22 @@ class CtxAwareTransformer(NodeTransformer):
                 ctx.remove(value)
                 break
 
-    def _column_window(self, node, line, nlogical):
+    def _offset_in_logical_line(self, start, lineno0):
+        """Position, in the logical line that starts at physical line
+        ``start``, of the first character of physical line ``lineno0`` (both
+        0-based) - the way ``get_logical_line`` joins them: a backslash
+        continuation drops the backslash, a line inside a triple-quoted
+        string is joined with a newline."""
+        linecont = get_line_continuation()
+        off = 0
+        for ln in self.lines[start:lineno0]:
+            if _ends_with_line_continuation(ln, linecont):
+                off += len(ln) - 1
+            else:
+                off += len(ln) + 1
+        return off
+
+    def _column_window(self, node, line, nlogical, idx=None):
         """Compute the (mincol, maxcol) window that brackets ``node`` in ``line``.
 
         Mirrors the column-based branch of ``try_subproc_toks`` and is used
@@ -449,6 +471,20 @@ class CtxAwareTransformer(NodeTransformer):
         """
         mincol = max(min_col(node) - 1, 0)
         maxcol = max_col(node)
+        if nlogical > 1 and idx is not None:
+            # ``line`` is the logical line joined from several physical
+            # lines, the columns are positions in the node's own physical
+            # line.  A node that sits on one physical line (an operand of
+            # ``a and \<newline> b``) is cut out at its position in the
+            # joined text; without this every operand was cut from its
+            # column to the end of the joined line and the last command
+            # replaced all the others.
+            lines_of_node = {getattr(n, "lineno", node.lineno) for n in walk(node)}
+            if lines_of_node == {node.lineno}:
+                off = self._offset_in_logical_line(idx, node.lineno - 1)
+                mincol += off
+                maxcol += off
+                nlogical = 1
         if mincol == maxcol:
             maxcol = find_next_break(line, mincol=mincol, lexer=self.parser.lexer)
         elif nlogical > 1:
@@ -474,7 +510,7 @@ class CtxAwareTransformer(NodeTransformer):
         # the precise window can't yield a parsable wrap.  When the node's
         # column metadata happens to be wrong (the original eval-mode use
         # case) the column attempt fails parse and the fallback runs.
-        col_window = self._column_window(node, line, nlogical)
+        col_window = self._column_window(node, line, nlogical, idx)
         if self.mode == "eval":
             eval_window = (len(line) - len(line.lstrip()), None)
             windows = [col_window, eval_window]
